@@ -195,16 +195,78 @@ func c04BoundedParsers(c *Ctx, r *Report, rule string) {
 					k, isConst := constInt(v)
 					return isConst && k > 0 && k <= 66560
 				}
+				// what a helper of the module does with the parser it is given: "read" (it reads, and does nothing else
+				// than calling the parser's methods), "none", or "out of sight" (it sets the limit itself, stores the
+				// parser, hands it to foreign code)
+				var handed func(g *ssa.Function, j int, depth int) string
+				handed = func(g *ssa.Function, j int, depth int) string {
+					if g == nil || g.Blocks == nil || j >= len(g.Params) || depth > 3 || g.Pkg == nil || !strings.HasPrefix(g.Pkg.Pkg.Path(), modPath) {
+						return "out of sight"
+					}
+					res := "none"
+					for _, ref := range *g.Params[j].Referrers() {
+						switch x := ref.(type) {
+						case *ssa.DebugRef:
+						case ssa.CallInstruction:
+							id := calleeID(x)
+							switch {
+							case id == ap.read:
+								res = "read"
+							case id == ap.limit:
+								return "out of sight"
+							case strings.HasPrefix(id, "(*golang.org/x/net/http2.Framer)."):
+							default:
+								sub := "out of sight"
+								for k, a := range x.Common().Args {
+									if a == ssa.Value(g.Params[j]) {
+										sub = handed(x.Common().StaticCallee(), k, depth+1)
+									}
+								}
+								if sub == "out of sight" {
+									return sub
+								}
+								if sub == "read" {
+									res = "read"
+								}
+							}
+						default:
+							return "out of sight"
+						}
+					}
+					return res
+				}
+				helperUse := func(c2 ssa.CallInstruction) string {
+					g := c2.Common().StaticCallee()
+					if g == nil || strings.HasPrefix(calleeID(c2), "(*golang.org/x/net/http2.Framer).") {
+						return ""
+					}
+					use := ""
+					for k, a := range c2.Common().Args {
+						if derivesFrom(a, call) {
+							use = handed(g, k, 0)
+							if use != "none" {
+								return use
+							}
+						}
+					}
+					return use
+				}
 				isRead := func(in ssa.Instruction) bool {
 					c2, ok := in.(*ssa.Call)
-					return ok && calleeID(c2) == ap.read && len(c2.Call.Args) >= 1 && derivesFrom(c2.Call.Args[0], call)
+					if !ok {
+						return false
+					}
+					if calleeID(c2) == ap.read && len(c2.Call.Args) >= 1 && derivesFrom(c2.Call.Args[0], call) {
+						return true
+					}
+					return helperUse(c2) == "read" // a helper of the module that reads from the parser it is given
 				}
-				// the parser handed to another function is out of sight: undecided
+				// the parser handed to a function that does more than read from it is out of sight: undecided
 				escapes := ""
 				for _, ref := range *call.Referrers() {
 					if c2, ok := ref.(ssa.CallInstruction); ok && c2.Common().StaticCallee() != nil {
-						if id := calleeID(c2); !strings.HasPrefix(id, "(*golang.org/x/net/http2.Framer).") {
-							escapes = id
+						if helperUse(c2) == "out of sight" {
+							escapes = calleeID(c2)
 						}
 					}
 				}
